@@ -76,9 +76,40 @@ func (i *argumentsPropIter) next() (propIterItem, iterNextFunc) {
 		return propIterItem{}, nil
 	}
 	if prop, ok := item.value.(*mappedProperty); ok {
-		item.value = *prop.v
+		if prop.writable && prop.enumerable && prop.configurable {
+			item.value = *prop.v
+		} else {
+			// the attributes are not the default ones: let the consumer go through [[GetOwnProperty]]
+			item.value = nil
+			if prop.enumerable {
+				item.enumerable = _ENUM_TRUE
+			} else {
+				item.enumerable = _ENUM_FALSE
+			}
+		}
 	}
 	return item, i.next
+}
+
+func (a *argumentsObject) stringKeys(all bool, keys []Value) []Value {
+	if all {
+		return a.baseObject.stringKeys(all, keys)
+	}
+	a.ensurePropOrder()
+	for _, k := range a.propNames {
+		switch prop := a.values[k].(type) {
+		case *valueProperty:
+			if !prop.enumerable {
+				continue
+			}
+		case *mappedProperty:
+			if !prop.enumerable {
+				continue
+			}
+		}
+		keys = append(keys, stringValueFromRaw(k))
+	}
+	return keys
 }
 
 func (a *argumentsObject) iterateStringKeys() iterNextFunc {
